@@ -19,6 +19,9 @@ A *system* is a module (normally the property module) with
     mc_judge(ctx, hist, obj, exc, src_id, dst_id)   the oracle, evaluated on EVERY transition (and on every initial
                                            state with src_id None); exc is the exception text when build raised
 """
+import os
+import sys
+import time
 import importlib
 from . import core
 
@@ -122,6 +125,9 @@ def explore(ctx, sysmod, inits, max_depth=None, max_states=50000, max_transition
             seen[sid] = hist
             nxt.append([hist, sid])
         levels.append(len(nxt))
+        if os.environ.get('VERIF_PROGRESS'):
+            print(f'[explore] {time.strftime("%H:%M:%S")} depth {depth}: expanded {len(frontier)} states, {len(nxt)} new, '
+                  f'{len(seen)} total, {ctx.transitions} transitions', file=sys.stderr, flush=True)
         frontier = nxt
         if len(seen) >= max_states and capped:
             ctx.caps.append(f'state cap {max_states} hit at depth {depth}: exploration stopped')
